@@ -2,7 +2,7 @@
 //
 //	vh list
 //	vh <Cxx> gen  --seed N --tier quick|thorough     > cases
-//	vh <Cxx> exec [--fails file]          < cases    > impl-output
+//	vh <Cxx> exec [--fails file] [--annot file] < cases > impl-output
 //	vh <Cxx> rule
 package main
 
@@ -34,13 +34,28 @@ func main() {
 	seed := fs.Uint64("seed", 1, "PRNG seed")
 	tier := fs.String("tier", "quick", "quick|thorough")
 	failsPath := fs.String("fails", "", "write oracle failures (jsonl) here")
+	annotPath := fs.String("annot", "", "write the annotated case file (input of the model driver) here")
 	_ = fs.Parse(os.Args[3:])
 	switch os.Args[2] {
 	case "gen":
 		core.WriteCases(os.Stdout, p.Gen(core.NewRand(*seed), *tier))
 	case "exec":
 		cs := core.ReadCases(os.Stdin)
-		fails := core.Exec(p, cs, os.Stdout)
+		var aw *os.File
+		if *annotPath != "" {
+			var err error
+			if aw, err = os.Create(*annotPath); err != nil {
+				fmt.Fprintln(os.Stderr, err)
+				os.Exit(2)
+			}
+		}
+		var fails []core.Fail
+		if aw != nil {
+			fails = core.Exec(p, cs, os.Stdout, aw)
+			aw.Close()
+		} else {
+			fails = core.Exec(p, cs, os.Stdout, nil)
+		}
 		if *failsPath != "" {
 			if err := core.WriteFails(*failsPath, fails); err != nil {
 				fmt.Fprintln(os.Stderr, err)
